@@ -17,7 +17,8 @@ Local Open Scope N_scope.
    match of the two characters "EI".  `s` is the input from the 'E' on.
      Tokenizer tokenizer;  tokenizer.nextToken(is, "finder", str.size() + 2);      // max_len = 4
      pos = is.tell();  type must be tt_word and value "EI";
-     next_okay = (read 1 byte fails) || is_delimiter(next);  is.seek(pos);
+     next_okay = (read 1 byte fails) || (is_delimiter(next) && next != '\v');  is.seek(pos);
+       (VT ends a token for this tokenizer but is neither white space nor a delimiter in PDF syntax: repair of C16-F1)
      token_start == 0 cannot happen (the search never starts at offset 0).
    Result: Some rest = accepted, rest = input from is.tell() (just after the token) on. *)
 Definition c16_str_EI : list N := [69; 73].
@@ -29,7 +30,7 @@ Definition c16_finder_check (s : list N) : option (list N) :=
   if ttype_eqb (tok_type tok) TT_word && list_eqb N.eqb (tok_value tok) c16_str_EI then
     match rest with
     | [] => Some rest
-    | nx :: _ => if tk_is_delimiter nx then Some rest else None
+    | nx :: _ => if tk_is_delimiter nx && negb (nx =? 11) then Some rest else None   (* is_delimiter(next) && next != '\v' *)
     end
   else None.
 
@@ -66,9 +67,13 @@ Fixpoint c16_word_scan (v : list N) (alpha other : bool) : bool * bool * bool :=
       else c16_word_scan r alpha true
   end.
 
+(* found_non_printable || (found_alpha && found_other && value != "d0" && value != "d1"): d0 and d1 are the only
+   operators that mix letters and digits (repair of C16-F6) *)
+Definition c16_str_d0 : list N := [100; 48].
+Definition c16_str_d1 : list N := [100; 49].
 Definition c16_word_is_bad (v : list N) : bool :=
   let '(alpha, nonpr, other) := c16_word_scan v false false in
-  nonpr || (alpha && other).
+  nonpr || (alpha && other && negb (list_eqb N.eqb v c16_str_d0) && negb (list_eqb N.eqb v c16_str_d1)).
 
 (* for (int i = 0; i < 10; ++i) { check.nextToken(input, "checker"); ... }  with `Tokenizer check;`
    (allow_eof = false, include_ignorable = false).  Result: (okay, found_bad, input after the loop). *)
